@@ -43,6 +43,18 @@ Theorem C23_done_once_when_rpcs_finished : forall cfg ops s0 obs evs sf k t,
 Proof. exact done_once_when_finished. Qed.
 Print Assumptions C23_done_once_when_rpcs_finished.
 
+(* "... is retried": a stream operation of a created, not yet committed stream fails with a status
+   the retry policy retries (op [10;t]).  The abandoned attempt's Done runs right then with an
+   error (unless it already ran or there is none) and the RPC picks again (st 1 / 2) or fails
+   (st 4); the next attempt's pick result is then subject to the same rules as any other (the
+   three theorems above quantify over op lists that contain this op). *)
+Theorem C23_retried_attempt_done : forall s t x s' e, reachable s -> getth s t = Some x ->
+  st x = 3 -> committed x = false -> csfin x = false -> dstep s (DRetryFail t) = (s', e) ->
+  dones e = (if afin x || (tok x =? 0) then [] else [tok x; 1]) /\
+  exists x', nth_error (ths s') (Z.to_nat t) = Some x' /\ (st x' = 1 \/ st x' = 2 \/ st x' = 4).
+Proof. exact retried_attempt_done. Qed.
+Print Assumptions C23_retried_attempt_done.
+
 (* "A pick blocked waiting for a picker is woken by every picker update and by context
    cancellation": in every reachable state a thread parked in pick's select (st = 1) has a
    live context on an open channel, and updatePicker makes it call Pick on the new picker,
@@ -83,16 +95,20 @@ Print Assumptions C23_holds_on_every_model_trace.
 
 (* non-vacuity: a schedule with a not-READY pick (Done at once, nil error), a created stream
    finished after a failed stream op (Done once although finish runs twice), a transparent
-   retry and a NewStream failure: five callbacks, each invoked exactly once; the finding
-   clause is false on the model's own trace of its witness. *)
+   retry and a NewStream failure; then a created stream whose operation fails retryably, the
+   retry attempt's pick succeeds with a Done but its NewStream fails (transparent retry) and
+   the third attempt is created and finished: eight callbacks, each invoked exactly once; the
+   finding clause is false on the model's own trace of its witness. *)
 Example C23_witness :
   let ops := [[1;0;1]; [1;1;0]; [2]; [5;0;3;0;1;0]; [6;0;1]; [2]; [5;0;3;0;1;0]; [9;0]; [8;0;1]; [8;0;0];
-              [5;1;3;0;1;2]; [5;1;3;1;1;0]; [6;1;1]; [2]; [5;1;3;1;1;1]] in
+              [5;1;3;0;1;2]; [5;1;3;1;1;0]; [6;1;1]; [2]; [5;1;3;1;1;1];
+              [1;2;0]; [5;2;3;0;1;0]; [10;2]; [5;2;3;1;1;2]; [5;2;3;0;1;0]; [8;2;0]] in
   forallb nofo ops = true /\
-  (exists s0 obs sf, init [2;2] = Some s0 /\ exec s0 ops =
+  (exists s0 obs sf, init [3;2] = Some s0 /\ exec s0 ops =
      (obs, [EPick 0 1; EPick 1 1; EIssue 1 true 0; EDone 1 0; EPick 0 2; EIssue 2 true 0; EDone 2 1;
             EIssue 3 true 1; EDone 3 1; EPick 1 2; EIssue 4 true 1; EDone 4 0; EPick 1 3; EIssue 5 true 1;
-            EDone 5 1], sf)) /\
+            EDone 5 1; EPick 2 3; EIssue 6 true 2; EDone 6 1; EPick 2 3; EIssue 7 true 2; EDone 7 1; EPick 2 3;
+            EIssue 8 true 2; EDone 8 0], sf)) /\
   In (5, 1, false) (clauses_C23 [2;1] [[2]; [1;0;0]; [5;0;4;0;1;0]]
                       (match run [2;1] [[2]; [1;0;0]; [5;0;4;0;1;0]] with Some o => o | None => [] end)).
 Proof. vm_compute. split; [reflexivity|]. split; [do 3 eexists; split; reflexivity|]. repeat (first [left; reflexivity | right]). Qed.
